@@ -677,6 +677,24 @@ pair1_set_send_buf_len(void *arg, const void *buf, size_t sz, nni_type t)
 	}
 	nni_mtx_lock(&s->mtx);
 	rv = nni_lmq_resize(&s->wmq, (size_t) val);
+	// Senders that were waiting for room come first: as long as one of
+	// them waits, a new send is refused (it may not overtake), so room
+	// in the queue together with a waiting sender would leave the socket
+	// "writable" for poll and not writable for a non-blocking send.
+	while (!nni_lmq_full(&s->wmq)) {
+		nni_aio *a;
+		nni_msg *m;
+		size_t   l;
+		if ((a = nni_list_first(&s->waq)) == NULL) {
+			break;
+		}
+		nni_aio_list_remove(a);
+		m = nni_aio_get_msg(a);
+		l = nni_msg_len(m);
+		nni_lmq_put(&s->wmq, m);
+		nni_aio_set_msg(a, NULL);
+		nni_aio_finish(a, 0, l);
+	}
 	// Changing the size of the queue can affect our readiness.
 	if (!nni_lmq_full(&s->wmq)) {
 		nni_pollable_raise(&s->writable);
